@@ -480,8 +480,8 @@ def _tagmarkup_recurse(tm, attr):
     if not isinstance(tm, (str, bytes)):
         raise TagMarkupException(f"Invalid markup element: {tm!r}")
 
-    # text
-    return [tm], [(attr, len(tm))]
+    # text (an empty string takes up no cells: no zero-length attribute run for it)
+    return [tm], ([(attr, len(tm))] if tm else [])
 
 
 def is_mouse_event(ev: tuple[str, int, int, int] | typing.Any) -> bool:
